@@ -332,7 +332,8 @@ def run_impl(case):
                             "history": hist, "path": r["request"].get("path"), "method": r["request"].get("method"),
                             "target": _target_of(r["request"]),
                             "targets": [_target_of(h["request"]) for h in r.get("redirects", [])],
-                            "body": bodies[i] if i < len(bodies) else None})
+                            "body": bodies[i] if i < len(bodies) else None,
+                            "body_end": bytes(r["body"]).hex()})   # read only after the whole history
         wire = []
         for cid, sec, hi, path, verb in net.wire:
             kind, num, q = split_target(path)
@@ -416,6 +417,9 @@ def oracle(case, obs):
         if e["body"] is not None and bytes.fromhex(e["body"]) != want:
             return (f"entry for request {o} ({m}): body {bytes.fromhex(e['body'])[:40]!r} differs from the reply's body "
                     f"{want[:40]!r}")
+        if bytes.fromhex(e["body_end"]) != want:
+            return (f"entry for request {o} ({m}): body read after the whole history {bytes.fromhex(e['body_end'])[:40]!r} "
+                    f"is not the reply's body {want[:40]!r} (it was intact on arrival: changed after delivery)")
         if e["method"] != m:
             return f"entry for request {o} carries method {e['method']}, queued as {m}"
         k += 1
